@@ -1,5 +1,6 @@
 """C18 — letter case of the input sequences never changes the outcome."""
 from .. import gen, loader
+from ..dna import rc as dna_rc
 from ..core import Run
 from ..typing_drv import exec_typing
 from . import typing_common as tc
@@ -21,6 +22,14 @@ def run(tier, seed):
         for m in (rng.sample(masks(n, rng), 2) if q else masks(n, rng)):
             k = rng.randrange(n)
             recipes.append({"fn": "typing", "cls": cspec, "seq": gen.rotate(s, k), "twin": {"by": "case", "mask": m}})
+        # a record refused because of an extra recognition site stays refused in every spelling
+        from .. import classes as _cl
+        cutter = _cl.build(cspec).cutter
+        site = rng.choice([cutter.site, dna_rc(cutter.site)])
+        pos = rng.randrange(n)
+        s3 = s[:pos] + site + s[pos:]
+        for m in ("1", "".join(rng.choice("01") for _ in range(len(s3)))):
+            recipes.append({"fn": "typing", "cls": cspec, "seq": s3, "twin": {"by": "case", "mask": m}})
         # the base record may itself be lower/mixed case, and invalid records must stay invalid
         low = "".join(c.lower() if rng.random() < 0.5 else c for c in gen.mutate(s, rng))
         recipes.append({"fn": "typing", "cls": cspec, "seq": low, "twin": {"by": "case", "mask": rng.choice(masks(n, rng))}})
